@@ -206,7 +206,7 @@ func checkC07(w *World, c *Check, tier string) {
 				ip.profile = map[string]int{}
 			}
 			ip.overrides[jsonTag] = mkName(n)
-			leaves := observeLeaves(w, ip, jsonD)
+			leaves := observeLeaves(w, ip, jsonD, tagFn(jsonTag))
 			res, _, _ := ip.Call(jsonD, []AV{avNonNilPtr(valT)}, nil, Store{}, nil)
 			judgeLeaf(w, c, "json", n, k, leaves, ip, jsonD)
 			for _, hc := range hookCalls {
@@ -221,7 +221,7 @@ func checkC07(w *World, c *Check, tier string) {
 			ip := newInterp(w)
 			ip.globals[hg] = AV{K: kExtFn, Tag: "JSONItemUnmarshal"}
 			ip.overrides[jsonTag] = mkName(n)
-			leaves := observeLeaves(w, ip, jsonD)
+			leaves := observeLeaves(w, ip, jsonD, tagFn(jsonTag))
 			hookHit := false
 			ip.onExtCall = func(site ssa.Instruction, tag string, args []AV) {
 				if tag == "JSONItemUnmarshal" {
@@ -249,7 +249,7 @@ func checkC07(w *World, c *Check, tier string) {
 		{
 			ip := newInterp(w)
 			ip.overrides[gobETag] = mkName(n)
-			leaves := observeLeaves(w, ip, gobE)
+			leaves := observeLeaves(w, ip, gobE, tagFn(gobETag))
 			ip.Call(gobE, []AV{regAV[n]}, nil, Store{}, nil)
 			judgeLeaf(w, c, "gob-encode", n, k, leaves, ip, gobE)
 		}
@@ -260,7 +260,7 @@ func checkC07(w *World, c *Check, tier string) {
 			for _, tc := range typerCallsD {
 				ip.overrides[tc] = AV{K: kTuple, Tup: []AV{regAV[n], {K: kIface, Nil: nilYes}}}
 			}
-			leaves := observeLeaves(w, ip, gobD)
+			leaves := observeLeaves(w, ip, gobD, tagFn(gobDTag))
 			ip.Call(gobD, []AV{topOfType(gobD.Params[0].Type())}, nil, Store{}, nil)
 			judgeLeaf(w, c, "gob-decode", n, k, leaves, ip, gobD)
 		}
@@ -276,7 +276,7 @@ func checkC07(w *World, c *Check, tier string) {
 		}
 		ip := newInterp(w)
 		ip.overrides[jsonTag] = mkName(unk)
-		leaves := observeLeaves(w, ip, jsonD)
+		leaves := observeLeaves(w, ip, jsonD, tagFn(jsonTag))
 		res, _, returned := ip.Call(jsonD, []AV{avNonNilPtr(valT)}, nil, Store{}, nil)
 		key := fmt.Sprintf("unknown-name:%q", unk)
 		switch {
@@ -318,7 +318,45 @@ func registryResult(res AV) (*types.Named, AV) {
 }
 
 // dispatchTag finds the SSA value that fn compares (==) against at least ten distinct string constants.
+// dispatchTag: the value a dispatcher compares against >= 10 type-name constants; looked for in the dispatcher itself
+// and, failing that, in the functions it calls directly (the switch moved into a helper), nearest first.
 func dispatchTag(fn *ssa.Function) ssa.Value {
+	if v := dispatchTagIn(fn); v != nil {
+		return v
+	}
+	seen := map[*ssa.Function]bool{fn: true}
+	level := []*ssa.Function{fn}
+	for depth := 0; depth < 2; depth++ {
+		var next []*ssa.Function
+		for _, f := range level {
+			for _, call := range callsIn(f) {
+				g := call.Common().StaticCallee()
+				if g == nil || seen[g] || g.Blocks == nil || g.Pkg != fn.Pkg {
+					continue
+				}
+				seen[g] = true
+				next = append(next, g)
+			}
+		}
+		sort.Slice(next, func(i, j int) bool { return funcName(next[i]) < funcName(next[j]) })
+		var found ssa.Value
+		for _, g := range next {
+			if v := dispatchTagIn(g); v != nil {
+				if found != nil {
+					return nil // ambiguous
+				}
+				found = v
+			}
+		}
+		if found != nil {
+			return found
+		}
+		level = next
+	}
+	return nil
+}
+
+func dispatchTagIn(fn *ssa.Function) ssa.Value {
 	cnt := map[ssa.Value]map[string]bool{}
 	for _, b := range fn.Blocks {
 		for _, in := range b.Instrs {
@@ -427,7 +465,7 @@ func isItemStruct(w *World, n *types.Named) bool {
 
 // observeLeaves installs observers: wire leaves called from the dispatcher or one of its closures are
 // recorded and not descended into.
-func observeLeaves(w *World, ip *Interp, d *ssa.Function) *[]leafCall {
+func observeLeaves(w *World, ip *Interp, d *ssa.Function, helpers ...*ssa.Function) *[]leafCall {
 	var leaves []leafCall
 	// the emptiness check applied to the finished value (IsNotEmpty hook, initially NotEmpty) plays no part in
 	// choosing the codec and is not descended into
@@ -442,7 +480,16 @@ func observeLeaves(w *World, ip *Interp, d *ssa.Function) *[]leafCall {
 	}
 	ip.onCall = func(ev callEvent) {
 		if ev.Caller != d && ev.Caller.Parent() != d {
-			return
+			// the switch may live in a helper the dispatcher calls (the function holding the dispatch tag)
+			inHelper := false
+			for _, h := range helpers {
+				if h != nil && (ev.Caller == h || ev.Caller.Parent() == h) {
+					inHelper = true
+				}
+			}
+			if !inHelper {
+				return
+			}
 		}
 		if ev.Callee == d {
 			return
@@ -606,4 +653,15 @@ func famName(f string) string {
 		return "no family list (generic/empty name)"
 	}
 	return f
+}
+
+// tagFn: the function in which the dispatch tag is computed.
+func tagFn(tag ssa.Value) *ssa.Function {
+	if in, ok := tag.(ssa.Instruction); ok {
+		return in.Parent()
+	}
+	if p, ok := tag.(*ssa.Parameter); ok {
+		return p.Parent()
+	}
+	return nil
 }
